@@ -200,6 +200,10 @@ class Body:
             cid = f.get("id")
             if cid in through_calls and n["args"]:
                 return self.root(n["args"][0], depth + 1, through_calls)
+            if cid == "core::clone::Clone::clone" and n["args"] and f.get("a") and isinstance(f["a"][0], int) \
+                    and self.F.types[f["a"][0]]["k"] == "prim":
+                # cloning a primitive is a copy
+                return self.root(n["args"][0], depth + 1, through_calls)
             return ("call", bi, n)
         r = n["r"]
         k = r["k"]
@@ -233,6 +237,8 @@ class Body:
                     ret = r["p"][0]
                 elif r["k"] == "agg" and r.get("ak") == "array" and not r["ops"]:
                     vals[s["p"][0]] = {"k": "emptyarray"}
+                elif r["k"] == "agg" and r.get("ak") == "array" and all("c" in o and "v" in o["c"] for o in r["ops"]):
+                    vals[s["p"][0]] = {"k": "array", "vals": [o["c"]["v"] for o in r["ops"]]}
                 else:
                     return None
         if ret is not None and ret in vals:
@@ -323,6 +329,43 @@ class Facts:
             if it["name"] == name:
                 return self.bodies.get(it["id"])
         return None
+
+    # ---- lookup
+    def methods(self, adt_path, ident):
+        """Bodies of inherent/trait methods named `ident` whose Self type is the ADT `adt_path`."""
+        out = []
+        for b in self.bodies.values():
+            if b.r.get("ident") == ident and "self_ty" in b.r:
+                t = self.types[b.r["self_ty"]]
+                if t["k"] == "adt" and t["p"] == adt_path:
+                    out.append(b)
+        return sorted(out, key=lambda x: x.id)
+
+    def fn(self, name):
+        for b in self.bodies.values():
+            if b.name == name:
+                return b
+        return None
+
+    def length_const(self, tid_or_type):
+        """The constant returned by `Length::len` of the ADT type, when it is a constant."""
+        from .entry import const_return
+        t = self.types[tid_or_type] if isinstance(tid_or_type, int) else tid_or_type
+        if t["k"] != "adt":
+            return None
+        for i in self.impls:
+            if i.get("trait") == "Length" and self.types[i["self_ty"]]["k"] == "adt" and self.types[i["self_ty"]]["p"] == t["p"]:
+                # impls such as `Butterfly8Avx<f32>`: match the generic args too when both are concrete
+                if self.types[i["self_ty"]]["a"] != t["a"] and not self._args_generic(i):
+                    continue
+                b = self.body_of_impl_item(i, "len")
+                if b is not None:
+                    return const_return(self, b)
+        return None
+
+    def _args_generic(self, imp):
+        t = self.types[imp["self_ty"]]
+        return any(isinstance(a, int) and self.types[a]["k"] == "param" for a in t["a"])
 
     # ---- call graph
     @staticmethod
